@@ -1120,6 +1120,9 @@ def is_(a, b):
             return FALSE
         if is_op(other, 'WEAKREF') or is_op(other, 'ITER'):
             return FALSE      # the reference / iterator object itself
+        if is_op(other) and other[1] in ('STRUCTOBJ', 'HASHOBJ', 'HMACOBJ', 'LOCKOBJ', 'CSPRNG', 'PRNG', 'STREAM', 'BARR', 'NTCLS', 'ECDSA_SK',
+                                         'FILE', 'RANGE', 'MAP', 'ENUMERATE', 'ZIP', 'JSON', 'JSON_SORTED'):
+            return FALSE      # a library object / a computed container or text, never None
         if tag(other) == 'sym' and (sym_meta(other, 'callable') or sym_meta(other, 'cls')):
             return FALSE      # a symbol that stands for a function / an object of a class
         return ('op', 'IS', other, NONE)
